@@ -578,7 +578,8 @@ def run_exit_routes(ctx, drv, volume, only=None):
     # the routes through Exception_Error after a signal first (they are the ones a changed
     # Exception_Error / Exception_Signal breaks), then the others
     order = list(SIGNAL_ROUTES) + [r for r in ROUTES if r not in SIGNAL_ROUTES]
-    cases = [(r, 'p1') for r in order] + [(r, 'p1 o2 c3 c4 r5 f g6 p7 h8') for r in order]
+    cases = ([(r, 'p1') for r in order] + [(r, x) for r in 'rej' for x in ('r1', 'h1', 'g1')] +
+             [(r, 'p1 o2 c3 c4 r5 f g6 p7 h8') for r in order])
     cases += [(ctx.rng.choice(list(ROUTES)), gen_exit_objs(ctx.rng)) for _ in range(volume)]
     if only:
         cases = [only]
